@@ -208,6 +208,24 @@ func init() {
 		Rule: "explicit-state DFS from a root with two completed orders: Report(creator in {fishman F1, fishman F2, ordinary node, non-node} x accused in {S1,S2} x fault in {exact, commit matches, wrong order, wrong data id, shard of other provider, nonexistent shard, provider field mismatch, other order}), Recover(creator in {accused, other provider, fishman, ordinary node, non-node}), block advance to the 600-block penalty tick and across expiry; every recorded fault is validated against the pre-state, every report/recover step must leave balances, orders, shards, nodes and other providers' pledges byte-identical; non-trivial = distinct states with at least one fault record",
 		Assumptions: []string{"confirmation by a second fishman is unreachable in the current code (reporter comparison is always equal), so confirmed faults and the penalty settlement are not exercised; reported in DESIGN.md", "SDK modules are trusted"},
 		Scenarios:   func(tier string) []*engine.Scenario { return []*engine.Scenario{C19Scenario(tier)} }})
+	rAssume := []string{"Tendermint is replaced by a driver that feeds the same RequestBeginBlock / DeliverTx / EndBlock / Commit stream to both replicas", "the clock and map-iteration seams are std-library overlays applied at build time of the harness binary (go build -overlay); for maps with more than 8 entries the 8 enumerated words are a subset of the runtime's freedom", "non-consensus calls are inserted between consensus calls, not concurrently with them", "cross-architecture floating point (Node.reputation float32) is not examined"}
+	register(&Check{ID: "C01", Level: "exploration", ExtraWorkers: 16,
+		Rule: "engine R: scripts (storage lifecycle with every custom message type incl. invalid twins and multi-element map-iteration sites; staking script with a delegation that fails between the two hooks) executed on real applications through ABCI; replica B differs from replica A by exactly one enumerated deviation: wall-clock offset in {-400d,-1h,+1h,+400d}, map-iteration word 1..8, Simulate(tx j) / CheckTx(tx j) / gRPC query inserted at every stream position p for every j (thorough: clock/map word switched at every position); oracle: byte-equal DeliverTx/BeginBlock/EndBlock responses and app hash at every height; distinct_nontrivial = deviations whose inserted call / environment change was actually performed",
+		Assumptions: rAssume,
+		Extra:       func(tier string, shard, of int) ExtraResult { return ReplicaExtra("C01", tier, shard, of) }})
+	register(&Check{ID: "C03", Level: "fault_enumeration", ExtraWorkers: 16,
+		Rule: "engine R: for every script, a restart from the database (new app.New over the same DB, LoadLatestVersion) after every commit, a crash in the middle of every block after every transaction index (instance dropped, block re-executed from the last commit), and Simulate(tx j) inserted at every stream position for every j (residue of merely simulated transactions); thorough: all ordered pairs restart/mid-block crash; oracle: all later consensus responses and app hashes equal those of the uninterrupted replica; distinct_nontrivial = crash / restart / simulation points actually exercised",
+		Assumptions: rAssume,
+		Extra:       func(tier string, shard, of int) ExtraResult { return ReplicaExtra("C03", tier, shard, of) }})
+	register(&Check{ID: "C20", Level: "model_checking", Workers: 16,
+		Rule: "explicit-state DFS over {delegate / undelegate / redelegate by two nodes and an outsider on two validators with amounts below / at / above the share threshold, all, and more than the balance (fails between the hooks); add / remove capacity across the threshold; reset with full or partial status and validator in {unset, V, V2}; full end-blocker of the module manager (validator set updates, unbonding maturity)} from a fresh root and from a root with an existing super node; in every state: role super => full status, pledge >= threshold, own shares / validator shares >= threshold (recomputed through the staking keeper); non-trivial = distinct states with at least one super node",
+		Assumptions: []string{"staking, bank and distribution modules are trusted", "two validators, two nodes, one outsider; slashing / jailing is not driven"},
+		Scenarios:   func(tier string) []*engine.Scenario { return []*engine.Scenario{C20Scenario(tier)} }})
+	register(&Check{ID: "C18", Level: "model_checking", Workers: 16, ExtraWorkers: 8,
+		Rule: "explicit-state DFS over the lifecycle (with updates, renewals, migrations), fault-report, staking / super-node and timeout alphabets; in EVERY reached state the six modules' real ExportGenesis -> JSON -> Validate() -> real InitGenesis into empty custom stores, raw comparison of the custom stores, then every enabled operation (and block advance) is applied to both the original and the re-imported state and results, stores and balances are compared; plus the full pipeline ExportAppStateAndValidators -> ValidateGenesis -> InitChain on a fresh application -> two blocks after every block of the engine-R scripts; non-trivial = distinct states with at least one order or fault record",
+		Assumptions: []string{"SDK modules' own export/import is trusted; their stores are copied, not round-tripped, in the engine-X leg (they are round-tripped in the full-pipeline leg)", "continuation depth is one operation per state"},
+		Scenarios:   func(tier string) []*engine.Scenario { return C18Scenarios(tier) },
+		Extra:       func(tier string, shard, of int) ExtraResult { return GenesisExtra(tier, shard, of) }})
 	reg("C13", true, nil)
 	reg("C11", true, nil)
 	reg("C12", true, nil)
